@@ -23,7 +23,8 @@ MECH_TEXT_C05 = ("MECHANISM LEVEL (coq/Props/C05_mech.v): a model shaped like me
                  "match with the unreachable!() arm as Panic, MergePriority with Neutral distinct from Numeral 0, combine_dedup, the "
                  "Container::Empty fast path, lazily suspended merges of field values, Force + sorting serializer) is proved to REFINE the "
                  "algebra: abs(whnf v) = abs v, abs(mech_merge a b) = merge (abs a) (abs b), export_json v = export (abs v) (same tree / same "
-                 "error-kind set), for every value with distinct keys per record; hence the mechanism model's exports are commutative, "
+                 "error-kind set), for every well-formed value (distinct keys per record, plain data inside arrays), and a record literal built by "
+                 "inserting its fields in written order abstracts to the algebra's elaboration (melab_refines); hence the mechanism model's exports are commutative, "
                  "associative, idempotent and have {} as unit; the unreachable!() arm is proved unreachable for all priorities.")
 MECH_TEXT_C15 = ("MECHANISM LEVEL (coq/Props/C15_mech.v): on the insertion-ordered model of merge.rs, %record/fields%, "
                  "%record/fields_with_opts%, %record/values%, std.record.to_array and the exported tree are proved to be functions of the "
@@ -36,7 +37,11 @@ MECH_TEXT_C15 = ("MECHANISM LEVEL (coq/Props/C15_mech.v): on the insertion-order
 def build(ck, props):
     """proof obligations of the mechanism level + the extracted model; returns the model executable or None"""
     for p in props:
+        cmd0, files0 = ck.coverage.get("checker_cmd"), ck.coverage.get("coq_files", [])
         ck.coq(p)
+        if cmd0:        # keep the property's own proof command / file list next to the mechanism level's
+            ck.coverage["checker_cmd"] = cmd0 + " ; " + ck.coverage.get("checker_cmd", "")
+        ck.coverage["coq_files"] = sorted(set(files0) | set(ck.coverage.get("coq_files", [])))
     rc, out, exe = core.ocaml_build("c05mech", "C05mech.v", "driver.ml")
     if rc != 0:
         ck.obligation("model-extraction:C05mech.v", "build", False, out[-3000:])
